@@ -691,6 +691,10 @@ public:
 			_ref.set_instance(c);
 			return false;
 		}
+		/* reserved space never is below the content (also when a shared buffer is replaced) */
+		if (len < c->length()) {
+			len = c->length();
+		}
 		content<T> *n;
 		if ((n = c->detach(len * sizeof(T)))) {
 			_ref.set_instance(n);
